@@ -27,6 +27,10 @@ pub struct Config {
     pub drop_stmts: Vec<String>,
     /// R-for: `for P in E { B }` -> `{ let mut it = E; let ghost it0 = it; loop { match it.next() { Some(P) => { B } None => { break; } } } }`
     pub rfor: bool,
+    /// R-closurepost: a parameterless closure whose body is (normalized) one of these constructor
+    /// expressions `E` becomes `|| -> (o: TYPE) ensures o == E { E }` (Verus attaches no postcondition to an
+    /// unannotated closure; the postcondition added is the closure's own body)
+    pub closure_post: Vec<(String, String)>,
     pub state_methods: Vec<String>,
     pub state_calls: Vec<String>,
     pub state_arg: String,
@@ -57,6 +61,10 @@ impl Config {
             rmatch_map: v["rmatch_map"].as_bool().unwrap_or(false),
             drop_stmts: strs(&v["drop_stmts"]).iter().map(|s| norm(s)).collect(),
             rfor: v["rfor"].as_bool().unwrap_or(false),
+            closure_post: v["closure_post"]
+                .as_object()
+                .map(|m| m.iter().map(|(k, t)| (norm(k), t.as_str().unwrap_or("").to_string())).collect())
+                .unwrap_or_default(),
             state_methods: strs(&v["state_methods"]),
             state_calls: strs(&v["state_calls"]).iter().map(|s| norm(s)).collect(),
             state_arg: v["state_arg"].as_str().unwrap_or("").to_string(),
@@ -554,6 +562,25 @@ impl<'a, 'ast> Visit<'ast> for Rewriter<'a> {
     }
 
     fn visit_expr_closure(&mut self, c: &'ast ExprClosure) {
+        if c.inputs.is_empty() && matches!(c.output, ReturnType::Default) {
+            let br = self.r(c.body.span());
+            let body = norm(self.sf.slice(br));
+            if let Some((_, ty)) = self.cfg.closure_post.iter().find(|(k, _)| *k == body) {
+                self.edits.replace(
+                    br,
+                    vec![
+                        Piece::Lit(format!("-> (o: {}) ensures o == ", ty)),
+                        Piece::Src(br.0, br.1),
+                        Piece::Lit(" { ".into()),
+                        Piece::Src(br.0, br.1),
+                        Piece::Lit(" }".into()),
+                    ],
+                    "R-closurepost",
+                );
+                self.note("R-closurepost", c.span());
+                return;
+            }
+        }
         self.scopes.push(HashMap::new());
         for p in &c.inputs {
             // an untyped closure parameter keeps a kind declared for that name by the unit file
